@@ -35,7 +35,8 @@ void reim_to_znx64_avx2_bnd63_fma(const REIM_TO_ZNX64_PRECOMP* precomp, int64_t*
   static const uint64_t MANTISSA_MASK = 0x000FFFFFFFFFFFFFUL;
   static const uint64_t MANTISSA_MSB = 0x0010000000000000UL;
   const double divisor_bits = precomp->divisor * ((double)(INT64_C(1) << 52));
-  const double offset = precomp->divisor / 2.;
+  // predecessor of divisor/2: adding exactly one half would round x/d = 0.5 - 2^-54 up to 1
+  const double offset = precomp->divisor * 0x1.fffffffffffffp-2;
 
   const __m256d SIGN_MASK_4 = _mm256_castsi256_pd(_mm256_set1_epi64x(SIGN_MASK));
   const __m256i EXPO_MASK_4 = _mm256_set1_epi64x(EXPO_MASK);
